@@ -25,6 +25,9 @@ theories/Formatters.vos theories/Formatters.vok theories/Formatters.required_vos
 theories/FormattersProofs.vo theories/FormattersProofs.glob theories/FormattersProofs.v.beautified theories/FormattersProofs.required_vo: theories/FormattersProofs.v theories/Base.vo theories/Status.vo theories/Rollup.vo theories/Runner.vo theories/RunnerSteps.vo theories/RunnerQuiet.vo theories/Formatters.vo gen/StatusTable.vo
 theories/FormattersProofs.vio: theories/FormattersProofs.v theories/Base.vio theories/Status.vio theories/Rollup.vio theories/Runner.vio theories/RunnerSteps.vio theories/RunnerQuiet.vio theories/Formatters.vio gen/StatusTable.vio
 theories/FormattersProofs.vos theories/FormattersProofs.vok theories/FormattersProofs.required_vos: theories/FormattersProofs.v theories/Base.vos theories/Status.vos theories/Rollup.vos theories/Runner.vos theories/RunnerSteps.vos theories/RunnerQuiet.vos theories/Formatters.vos gen/StatusTable.vos
+theories/Rerun.vo theories/Rerun.glob theories/Rerun.v.beautified theories/Rerun.required_vo: theories/Rerun.v theories/Base.vo theories/Status.vo theories/Rollup.vo theories/Runner.vo theories/Summary.vo theories/Select.vo theories/SelectProofs.vo gen/StatusTable.vo
+theories/Rerun.vio: theories/Rerun.v theories/Base.vio theories/Status.vio theories/Rollup.vio theories/Runner.vio theories/Summary.vio theories/Select.vio theories/SelectProofs.vio gen/StatusTable.vio
+theories/Rerun.vos theories/Rerun.vok theories/Rerun.required_vos: theories/Rerun.v theories/Base.vos theories/Status.vos theories/Rollup.vos theories/Runner.vos theories/Summary.vos theories/Select.vos theories/SelectProofs.vos gen/StatusTable.vos
 theories/Rollup.vo theories/Rollup.glob theories/Rollup.v.beautified theories/Rollup.required_vo: theories/Rollup.v theories/Base.vo theories/Status.vo gen/StatusTable.vo
 theories/Rollup.vio: theories/Rollup.v theories/Base.vio theories/Status.vio gen/StatusTable.vio
 theories/Rollup.vos theories/Rollup.vok theories/Rollup.required_vos: theories/Rollup.v theories/Base.vos theories/Status.vos gen/StatusTable.vos
@@ -97,6 +100,9 @@ props/C14.vos props/C14.vok props/C14.required_vos: props/C14.v theories/Base.vo
 props/C15.vo props/C15.glob props/C15.v.beautified props/C15.required_vo: props/C15.v theories/Base.vo theories/Status.vo theories/Rollup.vo theories/Runner.vo theories/RunnerSteps.vo theories/Formatters.vo theories/FormattersProofs.vo theories/RunnerEq.vo gen/StatusTable.vo
 props/C15.vio: props/C15.v theories/Base.vio theories/Status.vio theories/Rollup.vio theories/Runner.vio theories/RunnerSteps.vio theories/Formatters.vio theories/FormattersProofs.vio theories/RunnerEq.vio gen/StatusTable.vio
 props/C15.vos props/C15.vok props/C15.required_vos: props/C15.v theories/Base.vos theories/Status.vos theories/Rollup.vos theories/Runner.vos theories/RunnerSteps.vos theories/Formatters.vos theories/FormattersProofs.vos theories/RunnerEq.vos gen/StatusTable.vos
+props/C17.vo props/C17.glob props/C17.v.beautified props/C17.required_vo: props/C17.v theories/Base.vo theories/Status.vo theories/Rollup.vo theories/Runner.vo theories/Summary.vo theories/Select.vo theories/SelectProofs.vo theories/Rerun.vo gen/StatusTable.vo
+props/C17.vio: props/C17.v theories/Base.vio theories/Status.vio theories/Rollup.vio theories/Runner.vio theories/Summary.vio theories/Select.vio theories/SelectProofs.vio theories/Rerun.vio gen/StatusTable.vio
+props/C17.vos props/C17.vok props/C17.required_vos: props/C17.v theories/Base.vos theories/Status.vos theories/Rollup.vos theories/Runner.vos theories/Summary.vos theories/Select.vos theories/SelectProofs.vos theories/Rerun.vos gen/StatusTable.vos
 props/C18.vo props/C18.glob props/C18.v.beautified props/C18.required_vo: props/C18.v theories/Base.vo theories/Capture.vo theories/CaptureProofs.vo
 props/C18.vio: props/C18.v theories/Base.vio theories/Capture.vio theories/CaptureProofs.vio
 props/C18.vos props/C18.vok props/C18.required_vos: props/C18.v theories/Base.vos theories/Capture.vos theories/CaptureProofs.vos
